@@ -17,7 +17,7 @@ from symtorch import SymTensor
 # ---------------------------------------------------------------------------------------------------------------------
 # exactly representable "generic" parameter values
 # ---------------------------------------------------------------------------------------------------------------------
-def dyadic_init(model, seed=0, den=16, lim=24):
+def dyadic_init(model, seed=0, den=16, lim=24, positive=False):
     """weights/biases: distinct-looking multiples of 1/den; BatchNorm: eps=0, var in {1/4,1,4}, dyadic mean/affine.
     Every float32 operation PLiNIO performs on these at conversion time (BN folding, copy_) is exact."""
     rng = random.Random(1000 + seed)
@@ -27,10 +27,10 @@ def dyadic_init(model, seed=0, den=16, lim=24):
                 m.eps = 0.0
                 n = m.num_features
                 m.running_var.copy_(torch.tensor([rng.choice([0.25, 1.0, 4.0]) for _ in range(n)]))
-                m.running_mean.copy_(torch.tensor([rng.randint(-8, 8) / 8 for _ in range(n)]))
+                m.running_mean.copy_(torch.tensor([(rng.randint(-8, 0) if positive else rng.randint(-8, 8)) / 8 for _ in range(n)]))
                 if m.affine:
-                    m.weight.copy_(torch.tensor([rng.choice([0.5, 1.0, 2.0, -0.5, 1.5]) for _ in range(n)]))
-                    m.bias.copy_(torch.tensor([rng.randint(-8, 8) / 8 for _ in range(n)]))
+                    m.weight.copy_(torch.tensor([rng.choice([0.5, 1.0, 2.0, 1.5] if positive else [0.5, 1.0, 2.0, -0.5, 1.5]) for _ in range(n)]))
+                    m.bias.copy_(torch.tensor([(rng.randint(0, 8) if positive else rng.randint(-8, 8)) / 8 for _ in range(n)]))
             else:
                 for name, p in m._parameters.items():
                     if p is None:
@@ -39,7 +39,7 @@ def dyadic_init(model, seed=0, den=16, lim=24):
                     for _ in range(p.numel()):
                         k = 0
                         while k == 0:
-                            k = rng.randint(-lim, lim)
+                            k = rng.randint(1 if positive else -lim, lim)
                         vals.append(k / den)
                     p.copy_(torch.tensor(vals, dtype=p.dtype).reshape(p.shape))
     return model
@@ -142,7 +142,7 @@ class K1(nn.Module):
     def forward(self, x):
         ts = []
         for o, b in zip(self.origins, self.branches):
-            ts.append(x if o == 'i' else torch.relu(b(x)))
+            ts.append(b(x) if o == 'i' else torch.relu(b(x)))     # 'i': the input through nn.Identity (a distinct graph node per use)
         y = torch.cat(ts, dim=1)
         return self.out(torch.relu(self.cons(self.pad(y))))
 
@@ -238,19 +238,21 @@ FAMILIES = {'T1': T1, 'T2': T2, 'A1': A1, 'K1': K1, 'K2': K2, 'D2': D2, 'L1': L1
 def prog_id(spec):
     fam = spec['fam']
     rest = ','.join(f"{k}={'+'.join(v) if isinstance(v, (list, tuple)) else v}" for k, v in sorted(spec.items())
-                    if k not in ('fam', 'pit', 'id', 'tier', 'seed', 'selftest'))
+                    if k not in ('fam', 'id', 'tier', 'seed', 'selftest'))
     return f"{fam}({rest})"
 
 
-def build_program(spec, seed=0):
+def build_program(spec, seed=0, positive=False):
     """-> (nn.Module with dyadic generic weights, input shape without batch)"""
     fam = spec['fam']
-    kw = {k: v for k, v in spec.items() if k not in ('fam', 'pit', 'id', 'tier', 'seed', 'selftest', 'T')}
+    kw = {k: v for k, v in spec.items() if k not in ('fam', 'pit', 'id', 'tier', 'seed', 'selftest', 'T', 'exclude')}
+    if fam in ('F1', 'K2') and 'T' in spec:
+        kw['T'] = spec['T']
     if fam == 'K1' and 'origins' in kw:
         kw['origins'] = tuple(kw['origins'])
     torch.manual_seed(seed)
     m = FAMILIES[fam](**kw)
-    dyadic_init(m, seed)
+    dyadic_init(m, seed, positive=positive)
     if fam == 'T1':
         rf = (spec.get('K', 3) - 1) * spec.get('d0', 1) + 1
         shape = (spec.get('cin', 1), spec.get('T', rf + 2))
@@ -272,18 +274,24 @@ def build_program(spec, seed=0):
         shape = (1, spec.get('T', 2))
     elif fam == 'R4':
         shape = (1, spec.get('T', 4))
+    elif fam in _SHAPES:
+        shape = _SHAPES[fam](spec)
     else:
         raise KeyError(fam)
     return m, shape
 
 
-def make_pit(spec, seed=0, **pit_kw):
+def make_pit(spec, seed=0, positive=False, **pit_kw):
     from plinio.methods import PIT
-    model, shape = build_program(spec, seed)
+    model, shape = build_program(spec, seed, positive)
     kw = dict(spec.get('pit', {}))
     kw.update(pit_kw)
     if spec['fam'] == 'K1':
         kw.setdefault('exclude_names', model.fixed_names())
+    if spec.get('exclude') == 'name':
+        kw.setdefault('exclude_names', ('b',))
+    elif spec.get('exclude') == 'type':
+        kw.setdefault('exclude_types', (nn.Linear,))
     model.eval()
     pit = PIT(model, input_shape=shape, **kw)
     pit.eval()
@@ -464,3 +472,77 @@ def count_ops(model, x, bias=True, names=None):
     for h in hooks:
         h.remove()
     return tot[0]
+
+
+class F1(nn.Module):
+    """Conv1d -> ReLU -> flatten (module or method) -> Linear -> ReLU -> Linear"""
+
+    def __init__(self, C=2, T=2, H=2, cin=1, variant='method'):
+        super().__init__()
+        self.c0 = nn.Conv1d(cin, C, 1)
+        self.variant = variant
+        self.fl = nn.Flatten(1)
+        self.fc0 = nn.Linear(C * T, H)
+        self.fc1 = nn.Linear(H, 2)
+
+    def forward(self, x):
+        x = torch.relu(self.c0(x))
+        x = self.fl(x) if self.variant == 'module' else (torch.flatten(x, 1) if self.variant == 'function' else x.flatten(1))
+        return self.fc1(torch.relu(self.fc0(x)))
+
+
+class Q1(nn.Module):
+    """Conv1d over a single timestep -> squeeze -> Linear -> Linear"""
+
+    def __init__(self, C=3, H=2, cin=1):
+        super().__init__()
+        self.c0 = nn.Conv1d(cin, C, 1)
+        self.fc0 = nn.Linear(C, H)
+        self.fc1 = nn.Linear(H, 2)
+
+    def forward(self, x):
+        x = torch.relu(self.c0(x)).squeeze(-1)
+        return self.fc1(torch.relu(self.fc0(x)))
+
+
+class W1(nn.Module):
+    """depthwise chain: conv -> dw -> dw -> conv (1D or 2D)"""
+
+    def __init__(self, C=2, nd=1, cin=1, chain=2):
+        super().__init__()
+        conv = nn.Conv1d if nd == 1 else nn.Conv2d
+        self.c0 = conv(cin, C, 1)
+        self.dws = nn.ModuleList([conv(C, C, 1, groups=C) for _ in range(chain)])
+        self.c1 = conv(C, 2, 1)
+
+    def forward(self, x):
+        x = torch.relu(self.c0(x))
+        for d in self.dws:
+            x = torch.relu(d(x))
+        return self.c1(x)
+
+
+class X1(nn.Module):
+    """conv a -> relu -> conv b -> relu -> conv c ; b can be excluded from the search by name or by type (Linear variant)"""
+
+    def __init__(self, C=2, cin=1, kind='conv'):
+        super().__init__()
+        self.kind = kind
+        self.a = nn.Conv1d(cin, C, 1)
+        if kind == 'conv':
+            self.b = nn.Conv1d(C, C + 1, 1)
+            self.c = nn.Conv1d(C + 1, 2, 1)
+        else:
+            self.b = nn.Linear(C * 2, 3)
+            self.c = nn.Linear(3, 2)
+
+    def forward(self, x):
+        x = torch.relu(self.a(x))
+        if self.kind == 'conv':
+            return self.c(torch.relu(self.b(x)))
+        return self.c(torch.relu(self.b(x.flatten(1))))
+
+
+FAMILIES.update({'F1': F1, 'Q1': Q1, 'W1': W1, 'X1': X1})
+_SHAPES = {'F1': lambda s: (s.get('cin', 1), s.get('T', 2)), 'Q1': lambda s: (s.get('cin', 1), 1),
+           'W1': lambda s: (s.get('cin', 1), 2) if s.get('nd', 1) == 1 else (s.get('cin', 1), 2, 2), 'X1': lambda s: (s.get('cin', 1), 2)}
